@@ -393,7 +393,9 @@ RULESETS = {
         Rule("wrap.iucmu", r'\bgsl_matrix_complex_change_basis_IUCMU\s*\(\s*([^,()]+?)\s*,\s*([^,()]+?)\s*\)', r'sq_IUCMU(MPTR(\1),MPTR(\2))'),
         Rule("wrap.ret.move", r'return\s+SU_vector\s*\(\s*std::move\s*\(\s*m\s*\)\s*\)\s*;', 'su_ctor_matrix(ret,m); return;'),
         Rule("wrap.ret", r'return\s+SU_vector\s*\(\s*(\w+)\s*\)\s*;', r'su_ctor_matrix(ret,\1); return;'),
-        Rule("wrap.dim", r'(?<![\w.>])dim\b', 'self->dim', min=1),
+        Rule("wrap.forward", r'return\s+(UTransform|UDaggerTransform)\s*\(\s*(?:const_cast<[^<>]*>\s*\(\s*(\w+)\s*\)|(\w+))\s*\)\s*;',
+             lambda m: '%s_em(self,ret,(gsl_matrix_complex*)%s); return;' % (m.group(1), m.group(2) or m.group(3))),
+        Rule("wrap.dim", r'(?<![\w.>])dim\b', 'self->dim'),
     ],
     "wrot": [
         Rule("wr.ctor", r'SU_vector\s+suv\s*\(\s*dim\s*\)\s*;', 'struct SU_vector suv; su_ctor_sized(&suv,self->dim);', min=1),
